@@ -3,8 +3,19 @@
 E4: the full product of PATH subsets x -o x -m sequences x -t x -O over a small fixture tree, run through
 tools.compiler.main in process.  Reference counting function: argparse-level errors => SystemExit(2);
 otherwise usage errors (bad -o, missing PATHs, malformed -O); otherwise 1 for "no Modelica files" or the
-number of files with syntax errors; otherwise one per requested model that fails when the same request is
+number of files with parse errors; otherwise one per requested model that fails when the same request is
 made through the library API alone.
+
+The PATH alphabet holds every kind of `*.mo` entry the listing / parsing code can meet: a readable file
+that parses, a readable file with a syntax error, a regular file that is not UTF-8 text, and entries that
+are in the directory listing but are no regular file (a sub-directory named `*.mo`, a dangling symbolic
+link named `*.mo`) -- each inside a PATH directory and given directly as PATH.  A regular file that cannot
+be decoded is one file with a parse error.  For listed entries that are no regular file the statement
+does not say whether they are "files" at all, so the reference accepts both readings, consistently within
+one invocation: every such entry is one file with a parse error (what the tool logs today), or none of
+them is a Modelica file (a listing that keeps regular files only).  Given directly, a dangling link is a
+missing path (usage error) and a directory is a directory tree whatever its name.  An exception escaping
+main() is never a count.
 """
 import contextlib
 import io
@@ -22,7 +33,14 @@ G2 = "model G2\n  parameter Real k = 2;\n  Real y;\n  Real z;\nequation\n  der(y
 BAD = "model Bad\n  Real x\nequation\n  x = ;\nend Bad;\n"
 BAD2 = "model Bad2\n  Real y;\nequation\n  y = (1;\nend Bad2;\n"
 
-PATHS = ["good/G1.mo", "good/G2.mo", "bad/Bad.mo", "bad/Bad2.mo", "missing.mo", "empty", "good"]
+INNER = "model Inner\n  Real w;\nequation\n  w = 1;\nend Inner;\n"
+# a regular file that is not UTF-8 text (Latin-1 e-acute in the description string)
+NONUTF8 = b'model N "caf\xe9"\n  Real v;\nequation\n  v = 1;\nend N;\n'
+
+BASE_PATHS = ["good/G1.mo", "good/G2.mo", "bad/Bad.mo", "bad/Bad2.mo", "missing.mo", "empty", "good"]
+# listed-but-unreadable entries: inside a PATH directory (next to a copy of the good file G1.mo) and given directly
+ODD_PATHS = ["dirmo", "link", "enc", "dirmo/D.mo", "link/L.mo", "enc/N.mo"]
+PATHS = BASE_PATHS + ODD_PATHS
 MODELS = ["G1", "G2", "BadFlat", "Nope"]
 OUTS = ["out", "no_such_dir", "afile.txt"]
 OPTS = [None, "a=b", "malformed"]
@@ -42,15 +60,28 @@ def fixture():
         (root / "bad" / "Bad.mo").write_text(BAD)
         (root / "bad" / "Bad2.mo").write_text(BAD2)
         (root / "afile.txt").write_text("x")
+        for d in ("dirmo", "link", "enc"):
+            (root / d).mkdir()
+            (root / d / "G1.mo").write_text(G1)
+        (root / "dirmo" / "D.mo").mkdir()  # a sub-directory whose name ends in .mo ...
+        (root / "dirmo" / "D.mo" / "Inner.mo").write_text(INNER)  # ... and is a directory tree with one good file
+        os.symlink(str(root / "nowhere" / "L.mo"), str(root / "link" / "L.mo"))  # dangling symbolic link
+        (root / "enc" / "N.mo").write_bytes(NONUTF8)
         _FIX["root"] = root
     return _FIX["root"]
 
 
 def invocations(tier):
     psets = []
-    maxp = 2 if tier == "quick" else len(PATHS)
-    for r in range(1, maxp + 1):
-        psets += list(itertools.combinations(PATHS, r))
+    if tier == "quick":
+        for r in (1, 2):
+            psets += list(itertools.combinations(PATHS, r))
+    else:
+        # every subset of the base alphabet, and every subset of size <= 3 that holds an odd entry
+        for r in range(1, len(BASE_PATHS) + 1):
+            psets += list(itertools.combinations(BASE_PATHS, r))
+        for r in (1, 2, 3):
+            psets += [c for c in itertools.combinations(PATHS, r) if any(p in ODD_PATHS for p in c)]
     mseqs = [()]
     maxm = 2 if tier == "quick" else 3
     for r in range(1, maxm + 1):
@@ -61,7 +92,9 @@ def invocations(tier):
             for t in TARGETS:
                 for o in OUTS:
                     for op in OPTS:
-                        if (o != "out" or op is not None) and (len(ms) > 1 or len(ps) > 1) and tier == "quick":
+                        small = len(ms) <= 1 and len(ps) <= 1
+                        wide = tier != "quick" and all(p in BASE_PATHS for p in ps)
+                        if (o != "out" or op is not None) and not (small or wide):
                             continue  # usage errors short-circuit: vary them on the small invocations only
                         out.append((ps, ms, t, o, op))
     return out
@@ -94,29 +127,54 @@ def run_cli(argv):
         return ("raises", type(e).__name__)
 
 
-def files_of(ps):
+def listing(ps):
+    """Every entry the PATHs name: a regular *.mo file given directly, or what **/*.mo finds below a directory."""
     root = fixture()
     out = []
     for p in ps:
         q = root / p
-        if q.is_file() and q.suffix == ".mo":
-            out.append(q)
-        elif q.is_dir():
+        if os.path.isdir(q):
             out += sorted(q.glob("**/*.mo"))
+        elif os.path.isfile(q) and q.suffix == ".mo":
+            out.append(q)
     return out
+
+
+def entry_kind(f):
+    """text: regular file holding UTF-8 text; non-utf8: regular file that is not; else not a regular file."""
+    if os.path.isdir(f):
+        return "dir.mo"
+    if not os.path.isfile(f):  # follows links: a dangling link is no file
+        return "dangling.mo"
+    try:
+        f.read_bytes().decode("utf-8")
+    except UnicodeDecodeError:
+        return "non-utf8.mo"
+    return "text"
+
+
+def odd_entries(ps):
+    return sorted({k for k in map(entry_kind, listing(ps)) if k != "text"})
+
+
+def file_lists(ps):
+    """The readings the statement allows for listed entries that are no regular file: each is a file (that
+    cannot be parsed), or none is a Modelica file."""
+    full = listing(ps)
+    regular = [f for f in full if entry_kind(f) in ("text", "non-utf8.mo")]
+    return [full] if regular == full else [full, regular]
 
 
 _API = {}
 
 
-def api_fails(ps, m, target):
+def api_fails(files, m, target):
     """Does the request fail when made through the library API on a fresh state?"""
-    key = (ps, m, target)
+    key = (tuple(files), m, target)
     if key in _API:
         return _API[key]
     from pymoca import ast, parser, tree
 
-    files = files_of(ps)
     res = False
     try:
         if target == "casadi":
@@ -130,7 +188,7 @@ def api_fails(ps, m, target):
         else:
             lib = ast.Tree(name="ModelicaTree")
             for f in files:
-                lib.extend(parser.parse(f.read_text(), bypass_cache=True))
+                lib.extend(parser.parse(f.read_text(encoding="utf-8"), bypass_cache=True))
             if target == "sympy":
                 from pymoca.backends.sympy import generator
 
@@ -143,29 +201,50 @@ def api_fails(ps, m, target):
     return res
 
 
-def reference(inv):
+def parse_error(f):
     from pymoca import parser
 
+    if entry_kind(f) != "text":
+        return True
+    return parser.parse(f.read_text(encoding="utf-8"), bypass_cache=True) is None
+
+
+def count_for(files, ms, t):
+    if not files:
+        return 1
+    if t != "casadi":
+        perr = sum(1 for f in files if parse_error(f))
+        if perr:
+            return perr
+    return sum(1 for m in ms if api_fails(files, m, t))
+
+
+def usage_errors(inv):
     root = fixture()
     ps, ms, t, o, op = inv
-    if t and not ms:
-        return ("exit", 2)
     usage = 0
     if not (root / o).is_dir():
         usage += 1
-    usage += sum(1 for p in ps if not (root / p).exists())
+    usage += sum(1 for p in ps if not os.path.exists(root / p))  # follows links: a dangling link is missing
     if op is not None and len(op.split("=")) != 2:
         usage += 1
+    return usage
+
+
+def reference(inv):
+    """The acceptable outcomes (one, or two when the listing holds entries that are no regular file)."""
+    ps, ms, t, o, op = inv
+    if t and not ms:
+        return [("exit", 2)]
+    usage = usage_errors(inv)
     if usage:
-        return ("ret", usage)
-    files = files_of(ps)
-    if not files:
-        return ("ret", 1)
-    if t != "casadi":
-        perr = sum(1 for f in files if parser.parse(f.read_text(), bypass_cache=True) is None)
-        if perr:
-            return ("ret", perr)
-    return ("ret", sum(1 for m in ms if api_fails(ps, m, t)))
+        return [("ret", usage)]
+    out = []
+    for files in file_lists(ps):
+        r = ("ret", count_for(files, ms, t))
+        if r not in out:
+            out.append(r)
+    return out
 
 
 def check(inv):
@@ -173,14 +252,31 @@ def check(inv):
     exp = reference(inv)
     for f in (fixture() / "out").glob("*.py"):
         f.unlink()
-    if got == exp:
+    if got in exp:
         return None
     ps, ms, t, o, op = inv
-    shape = "t=%s:models=%s" % (t, "+".join("ok" if not (exp[0] == "ret" and api_fails(ps, m, t)) else "fail" for m in ms) or "-")
-    kind = "raises:" + got[1] if got[0] == "raises" else "exit-status"
+    counted = exp[0][0] == "ret"
+    shape = "t=%s:models=%s" % (t, "+".join("fail" if counted and api_fails(listing(ps), m, t) else "ok" for m in ms) or "-")
+    # entries that cannot be read matter where the files are parsed: no usage error, not the casadi branch
+    odd = odd_entries(ps)
+    at_parse = bool(odd) and t != "casadi" and exp != [("exit", 2)] and not usage_errors(inv)
+    if got[0] == "raises" and at_parse:
+        sig = "raises:%s:reading-listed-entry" % got[1]  # the parse stage died: models / target do not matter
+    elif got[0] == "raises":
+        sig = "raises:%s:%s" % (got[1], shape)
+    elif at_parse:
+        sig = "exit-status:entries=%s" % "+".join(odd)
+    else:
+        sig = "exit-status:" + shape
     return (
-        "%s:%s" % (kind, shape),
-        "compiler %s -> %r, expected %r" % (" ".join(a.replace(str(fixture()) + "/", "") for a in argv_of(inv)), got, exp),
+        sig,
+        "compiler %s -> %r, expected %s%s"
+        % (
+            " ".join(a.replace(str(fixture()) + "/", "") for a in argv_of(inv)),
+            got,
+            " or ".join(repr(e) for e in exp),
+            " (listing holds %s)" % ", ".join(odd) if odd else "",
+        ),
         {"invocation": [list(ps), list(ms), t, o, op]},
     )
 
@@ -202,6 +298,7 @@ def run(ctx):
             if v:
                 ctx.violation(*v)
     nontriv = sum(1 for i in invs if i[1])
+    oddn = sum(1 for i in invs if any(p in ODD_PATHS for p in i[0]))
     for k in (0, len(invs) // 2, len(invs) - 1):
         ctx.sample({"argv": [a.replace(str(fixture()) + "/", "") for a in argv_of(invs[k])]})
     ctx.coverage.update(
@@ -209,12 +306,23 @@ def run(ctx):
             "evaluations": len(invs),
             "distinct_nontrivial": nontriv,
             "exhaustive": True,
-            "rule": "product of PATH subsets (size <= 2 quick / all 127 thorough) of {good file 1, good file 2 (holds a class that fails "
-            "to flatten), two files with a syntax error, missing path, empty directory, directory with the good files} x -m sequences of "
-            "length 0..2 (3 thorough) over {G1, G2, BadFlat, Nope} x -t {none, sympy, casadi} x -o {directory, missing, a file} x -O "
-            "{none, a=b, malformed} (quick varies -o/-O on the single-path, <= 1 model invocations only). Non-trivial = at least one "
-            "model requested.",
+            "invocations_with_unreadable_entries": oddn,
+            "rule": "product of PATH subsets x -m sequences of length 0..2 (3 thorough) over {G1, G2, BadFlat, Nope} x -t {none, sympy, "
+            "casadi} x -o {directory, missing, a file} x -O {none, a=b, malformed}.  PATH alphabet: base = {good file 1, good file 2 "
+            "(holds a class that fails to flatten), two files with a syntax error, missing path, empty directory, directory with the "
+            "good files}; odd = listed entries that cannot be read as Modelica = {directory holding a good file and a sub-directory "
+            "named D.mo (itself holding a good file), directory holding a good file and a dangling symbolic link L.mo, directory "
+            "holding a good file and a non-UTF-8 regular file N.mo, and D.mo, L.mo, N.mo given directly}.  quick: all PATH subsets "
+            "of size <= 2 of the 13; thorough: all 127 subsets of the base and all subsets of size <= 3 that hold an odd entry.  "
+            "-o/-O are varied on single-path, <= 1 model invocations (thorough: also on every base-only invocation).  Non-trivial = "
+            "at least one model requested.",
         }
+    )
+    ctx.assumptions.append(
+        "a listed *.mo entry that is no regular file (sub-directory, dangling link) is either one file with a parse error or "
+        "no Modelica file at all -- the statement does not say which, both counts are accepted (all such entries of one "
+        "invocation read the same way); a regular file that is not UTF-8 text is one file with a parse error; given "
+        "directly as PATH a dangling link is a missing path and a directory named *.mo is a directory tree"
     )
     shutil.rmtree(fixture(), ignore_errors=True)
 
